@@ -47,6 +47,54 @@ def poly(x, memo):
     return r
 
 
+_canon_memo = [None, {}, {}, {}]
+
+
+def canon_origins(x):
+    """the (up to 4) terms, as the code wrote them, whose canonical form is x"""
+    if is_sym(x) and _canon_memo[0] is T.lst:
+        return _canon_memo[3].get(x[1], [])
+    return []
+
+
+def canon(x):
+    """Canonical representative of a Real term modulo the commutative-ring identities (+, -, *, division by constants):
+    polynomial normal form over the non-arithmetic sub-terms, rebuilt in a fixed order.  Used for the ARGUMENTS of opaque
+    applications in REAL mode, so that sin(t*(1-a)) and sin(t - t*a), or sqrt(x*x+y*y) and sqrt(y*y+x*x), are one term
+    (congruence by construction instead of by a nonlinear solver query)."""
+    if not is_sym(x) or sort_of(x) != 'Real':
+        return x
+    if _canon_memo[0] is not T.lst:
+        _canon_memo[0] = T.lst
+        _canon_memo[1] = {}
+        _canon_memo[2] = {}
+        _canon_memo[3] = {}
+    r = _canon_memo[2].get(x[1])
+    if r is not None:
+        return r
+    k = node(x)
+    if k[0] not in ('+', '-', '*', 'neg', '/'):
+        return x
+    pl = poly(x, _canon_memo[1])
+    if len(pl) > 400:
+        return x
+    r = Fraction(0)
+    for m in sorted(pl):
+        t = pl[m]
+        for at, pw in m:
+            for _ in range(pw):
+                t = arith('*', t, ('t', at))
+        r = arith('+', r, t)
+    _canon_memo[2][x[1]] = r
+    if is_sym(r):
+        _canon_memo[2][r[1]] = r
+        if r != x:
+            lst = _canon_memo[3].setdefault(r[1], [])
+            if len(lst) < 4 and x not in lst:
+                lst.append(x)
+    return r
+
+
 def is_const_poly(p):
     return len(p) == 1 and () in p and p[()] != 0
 
@@ -188,7 +236,12 @@ class Axioms:
                 continue
             t = node(w)[2]
             body = band(cmp('>=', w, 0), cmp('=', arith('*', w, w), t))
-            if is_sos(t):
+            # the argument is canonical (expanded); the forms the code wrote are equal to it over the reals and are
+            # often syntactic sums of squares, which spares the solver a non-linear sign proof
+            origs = canon_origins(t)
+            for o_ in origs:
+                body = band(body, cmp('=', arith('*', w, w), o_))
+            if is_sos(t) or any(is_sos(o_) for o_ in origs):
                 s.add('sqrt', body)
             else:
                 s.add('sqrt', implies(cmp('>=', t, 0), body))
@@ -303,7 +356,7 @@ class Axioms:
             if s.once(('atan2', w)):
                 y, x = node(w)[2], node(w)[3]
                 # the radius is the sqrt application a harness can also name: sqrt(x*x + y*y)
-                r = app('sqrt', 'Real', arith('+', arith('*', x, x), arith('*', y, y)))
+                r = app('sqrt', 'Real', canon(arith('+', arith('*', x, x), arith('*', y, y))))
                 nz = bor(cmp('!=', x, 0), cmp('!=', y, 0))
                 s.add('atan2', implies(nz, conj([
                     cmp('>', r, 0), cmp('=', arith('*', r, r), arith('+', arith('*', x, x), arith('*', y, y))),
